@@ -97,6 +97,17 @@ def _pattern_test(pat, subj):
                 raise _Unsupported("positional class pattern of a non-builtin class")
             parts.append(_pattern_test(pat.patterns[0], subj))
         return _and(parts)
+    if isinstance(pat, ast.MatchMapping) and not isinstance(subj, _Display):
+        # {"k": pattern, ...}: a mapping holding every listed key, the value under each key against its pattern
+        if pat.rest is not None or not all(isinstance(k, ast.Constant) for k in pat.keys):
+            raise _Unsupported("mapping pattern with **rest or computed keys")
+        parts = [ast.Call(func=_name("isinstance"), args=[copy.deepcopy(subj), _name("dict")], keywords=[])]
+        for k, sub in zip(pat.keys, pat.patterns):
+            parts.append(ast.Compare(left=copy.deepcopy(k), ops=[ast.In()], comparators=[copy.deepcopy(subj)]))
+            t = _pattern_test(sub, ast.Subscript(value=copy.deepcopy(subj), slice=copy.deepcopy(k), ctx=ast.Load()))
+            if not (isinstance(t, ast.Constant) and t.value is True):
+                parts.append(t)
+        return _and(parts)
     if isinstance(pat, ast.MatchSequence) and isinstance(subj, _Display):
         # the subject is a tuple / list display whose elements were bound to names: length and kind are known
         pats = pat.patterns
